@@ -130,6 +130,14 @@ def fold( e, env=None ):
             f_ = _env_get( env, key )
             if f_ is not NoFold and callable( f_ ):
                 return f_( *[ fold( a, env ) for a in e.args ] )
+    if isinstance( e, ast.Call ) and isinstance( e.func, ast.Attribute ) and env is not None and not e.keywords:
+        # a method the rule put into the environment under its dotted name ( 'self._back.pop' ): a marking stand-in, evaluated on the folded arguments
+        from .core import dotted as _dotted
+        d_ = _dotted( e.func )
+        if d_ is not None:
+            f_ = _env_get( env, d_ )
+            if f_ is not NoFold and callable( f_ ):
+                return f_( *[ fold( a, env ) for a in e.args ] )
     if isinstance( e, ast.Call ) and isinstance( e.func, ast.Name ) and e.func.id in _SAFE_BUILTINS and _SAFE_BUILTINS[e.func.id] is not None and not e.keywords:
         args = [ fold( a, env ) for a in e.args ]
         try:
@@ -257,6 +265,15 @@ def _store( tg, val, env ):
         if not isinstance( base, ( dict, list )):
             raise NoFold( 'store into %r' % type( base ).__name__ )
         base[key] = val
+    elif isinstance( tg, ast.Attribute ):
+        # a.b = v on a folded mapping ( the repository's dotdict stores a.b as a['b'] ) or a plain record
+        base = fold( tg.value, env )
+        if isinstance( base, dict ):
+            base[tg.attr] = val
+        elif isinstance( base, _Record ):
+            setattr( base, tg.attr, val )
+        else:
+            raise NoFold( 'store into attribute of %r' % type( base ).__name__ )
     elif isinstance( tg, ( ast.Tuple, ast.List )):
         try:
             vals = list( val )
